@@ -38,8 +38,9 @@ CONSTANTS T,            \* thread ids, 1 is the leader
           RtDecodable,  \* TRUE: the tracer can decode a realtime signal reported by waitpid and re-injects it;
                         \* FALSE: waitpid fails with EINVAL for it (nix cannot represent the signal), the thread is detached with signal 0
           Slow,         \* subset of T \ {1}: threads that sit in vfork() when the dump starts
-          WaitGivesUp,  \* FALSE: suspend_thread waits for the attached thread's stop however long it takes; TRUE: it gives up after a while,
-                        \* "detaches" (ESRCH, taken for "already gone") and drops the thread from its list
+          WaitGivesUp,  \* FALSE: suspend_thread waits for the attached thread's stop however long it takes - also when the wait is interrupted
+                        \* by a signal to the dumping thread (EINTR: it waits again); TRUE: it gives up (after a while, or at the first
+                        \* EINTR), "detaches" (ESRCH, taken for "already gone") and drops the thread from its list
           MayExit,      \* TRUE: non-leader threads may exit while running
           NFaultSteps   \* abstract stream steps that read the target; a hard failure may hit any of them
 
